@@ -125,6 +125,18 @@ def check_generators(ctx):
                     attrs = f.params[1]
                     ok = isinstance(idx, ast.Subscript) and U(idx.value) == attrs
                     why = 'the attribute index `%s` is not taken from %s[<table position>]' % (U(idx), attrs)
+                    if ok:
+                        k = idx.slice
+                        outer = loops[0]
+                        kid = k.id.split('@')[0] if isinstance(k, ast.Name) else None
+                        advanced = kid is not None and any(
+                            isinstance(x, ast.AugAssign) and isinstance(x.target, ast.Name) and x.target.id == kid
+                            for x in outer.body)
+                        enum = isinstance(outer.iter, ast.Call) and call_name(outer.iter) == 'enumerate' \
+                            and isinstance(outer.target, ast.Tuple) and kid is not None and outer.target.elts[0].id == kid
+                        ok = advanced or enum
+                        why = 'the table position `%s` used to pick the attribute index never advances with the table loop: ' \
+                              'every table is tokenized at the first table\'s attribute' % U(k)
         ctx.check('R-ORDER/count', f, 'frequency', ok, why, stores[0] if stores else f.node,
                   sample='freq[token] += 1 over all tables, rows, tokens')
         # ---- total order + rank
